@@ -265,6 +265,10 @@ var initStd = map[string]bool{
 // a property asks for it with "math_big": true in its config.
 var EnableBig bool
 
+// EnableParser: run the package initialisers of the vitess SQL parser (its generated tables), so that harnesses
+// can hand SQL text to the engine. Off by default (start-up cost); a property asks for it with "sql_parser": true.
+var EnableParser bool
+
 func (w *World) wantInit(p *ssa.Package) bool {
 	if p == nil {
 		return false
@@ -274,6 +278,9 @@ func (w *World) wantInit(p *ssa.Package) bool {
 		return false
 	}
 	if strings.HasPrefix(path, ModulePath) {
+		return true
+	}
+	if EnableParser && strings.HasPrefix(path, "github.com/dolthub/vitess/go/") {
 		return true
 	}
 	return initStd[path]
@@ -310,6 +317,7 @@ var allowFuncs = map[string]bool{"(*fmt.wrapError).Error": true, "(*fmt.wrapErro
 	"(net.IP).Equal": true, "net.ubtoa": true, "net.hexString": true, "net.isZeros": true, "net.allFF": true,
 	// time.Unix / (Time).Unix: pure arithmetic on the wall/ext fields (the location pointer is not followed)
 	"time.Unix": true, "time.unixTime": true, "(time.Time).Unix": true, "(*time.Time).unixSec": true, "(*time.Time).sec": true,
+	"(*sync.RWMutex).RLocker": true, "(*sync.rlocker).Lock": true, "(*sync.rlocker).Unlock": true,
 	"(time.Time).UnixNano": true, "(*time.Time).nsec": true, "(time.Time).IsZero": true, "(time.Time).Equal": true,
 }
 
@@ -320,7 +328,8 @@ func (w *World) allowedPath(path string) bool {
 	switch path {
 	case "sync/atomic", "internal/stringslite", "internal/bytealg", "internal/byteorder", "internal/itoa", "internal/godebug",
 		"internal/race", "internal/goarch", "internal/cpu", "internal/abi", "internal/unsafeheader", "net/netip",
-		"go.opentelemetry.io/otel/trace", "go.opentelemetry.io/otel/trace/embedded", "go.opentelemetry.io/otel/trace/noop":
+		"go.opentelemetry.io/otel/trace", "go.opentelemetry.io/otel/trace/embedded", "go.opentelemetry.io/otel/trace/noop",
+		"go.opentelemetry.io/otel/attribute", "go.opentelemetry.io/otel/codes", "go.opentelemetry.io/otel/internal/attribute":
 		return true
 	}
 	for _, d := range denyPrefixes {
